@@ -46,7 +46,7 @@ REAL_VS_STUB = {
              'CPython containers and allocator (malloc under ASan)'],
     'stub_or_simulator_owned': ['all user callbacks', 'which container is mutated how at which callback', 'GC timing'],
 }
-EXPECTED_PROBES = ('mut:rotate', 'index-sweep', 'leafcount-sweep', 'mut:delete_front', 'mut:delete_back', 'mut:clear', 'mut:append', 'mut:replace', 're:iter_next',
+EXPECTED_PROBES = ('mismatch-sweep', 'mut:rotate', 'index-sweep', 'leafcount-sweep', 'mut:delete_front', 'mut:delete_back', 'mut:clear', 'mut:append', 'mut:replace', 're:iter_next',
                    're:flatten', 're:unflatten', 're:register', 're:gc', 'outcome:exception', 'outcome:consistent')
 
 TRAVERSALS = ('flatten', 'flatten_with_path', 'iter', 'flatten_up_to', 'map', 'map_with_path', 'broadcast_prefix',
@@ -305,6 +305,50 @@ def mutate(target, how, ctx_leaf):
     return False  # tuples / namedtuples / struct sequences are immutable
 
 
+def clone_with(tree, victim, how, ctx):
+    """Structural copy of ``tree`` in which the one container ``victim`` has a different number of children."""
+    def alter(items):
+        items = list(items)
+        if how == 'shorter':
+            return items[:-1]
+        if how == 'much-shorter':
+            return items[:1] if len(items) > 2 else items[:-1]
+        if how == 'empty':
+            return []
+        return items + [ctx.leaf()]
+
+    def rec(x):
+        ch = py_children(x)
+        if ch is None:
+            return x
+        if isinstance(x, U.Node):
+            kids = [rec(c) for c in x.children]
+            return type(x)(alter(kids) if x is victim else kids, x.aux)
+        if isinstance(x, dict):
+            items = [(k, rec(v)) for k, v in x.items()]
+            if x is victim:
+                items = alter(items) if how != 'longer' else items + [('extra-key', ctx.leaf())]
+            if isinstance(x, defaultdict):
+                return defaultdict(x.default_factory, items)
+            return type(x)(items)
+        kids = [rec(c) for c in x]
+        if x is victim:
+            kids = alter(kids)
+        if isinstance(x, deque):
+            return deque(kids, maxlen=x.maxlen)
+        if isinstance(x, list):
+            return kids
+        if type(x) is tuple:
+            return tuple(kids)
+        if hasattr(x, '_fields'):
+            return tuple.__new__(type(x), kids)  # a same-class namedtuple whose length need not match _fields
+        try:
+            return type(x)(tuple(kids))  # struct sequence: refuses a wrong length itself
+        except TypeError:
+            return tuple(kids)
+    return rec(tree)
+
+
 def container_kind(x):
     if isinstance(x, U.Node):
         return 'custom'
@@ -334,7 +378,7 @@ def run_reentry(job, io):
         ks = ks[:30] + sorted(tape.shuffle(ks[30:], 'k-sample')[:30])
     spare = scn.ctx.leaf()
     execs = 0
-    ntargets = 5
+    ntargets = 6
     random_pick = tape.draw(1 << 16, 'rnd-target')
     for k in ks:
         label = labels[k - 1]
@@ -354,9 +398,12 @@ def run_reentry(job, io):
                         target = rec[-1 - ti] if len(rec) > ti else None
                     elif ti == 3:
                         target = scn.custom_children[-1] if scn.custom_children else None
-                    else:
+                    elif ti == 4:
                         cont = [x for x in walk(scn.tree) if py_children(x) is not None and not isinstance(x, tuple)]
                         target = cont[random_pick % len(cont)] if cont else None
+                    else:  # a container of the SECOND operand (tree_map / broadcast / prefix_errors read it by the first one's shape)
+                        cont = [x for x in walk(scn.tree2) if py_children(x) is not None and not isinstance(x, tuple)]
+                        target = cont[(random_pick // 7) % len(cont)] if cont else None
                     if target is not None and mutate(target, how, spare):
                         applied[0] = container_kind(target)
                 else:
@@ -671,6 +718,43 @@ def run_confusion(job, io):
                     if k == nl:
                         violations.append({'cls': 'leafcount-rejected', 'site': 'confusion:%s-leafcount' % how, 'msg': '%s rejected the exact number of leaves %d' % (how, nl)})
             keys.add('cf|leafcount|%s' % ('exact' if k == nl else 'fewer' if k < nl else 'more'))
+    # ---- shape-mismatch sweep: a second operand that equals the first except that ONE container is shorter / longer /
+    # empty (tuples and namedtuples too: tuple.__new__(cls, fewer) builds a same-class namedtuple of another length).
+    # Multi-tree operations read the second operand by the first one's shape and must raise, not read out of bounds.
+    reg = Registry()
+    reg.register(U.CA, 'ns', style=0)
+    reg.register(U.CB, 'ns', style=1)
+    try:
+        ctx2 = gen.Ctx(custom_classes=(U.CA, U.CB))
+        for _ in range(4):
+            t1 = gen.gen_tree(tape, 4 + tape.draw(20, 'mm-budget'), ctx2)
+            conts = [x for x in walk(t1) if py_children(x) is not None and len(py_children(x)) > 0]
+            if not conts:
+                continue
+            victim = conts[tape.draw(len(conts), 'mm-victim')]
+            how = tape.choice(('shorter', 'longer', 'empty', 'much-shorter'), 'mm-how')
+            t2 = clone_with(t1, victim, how, ctx2)
+            big = tape.draw(4, 'mm-big') == 3
+            if big and isinstance(victim, tuple) and hasattr(victim, '_fields'):
+                pass
+            kwm = {'namespace': 'ns', 'none_is_leaf': bool(tape.draw(2, 'mm-nil'))}
+            s1 = optree.tree_structure(t1, **kwm)
+            probes['mismatch-sweep'] += 1
+            for opn, f in (('flatten_up_to', lambda: s1.flatten_up_to(t2)), ('map', lambda: optree.tree_map(lambda a, b: a, t1, t2, **kwm)),
+                           ('map2', lambda: optree.tree_map(lambda a, b: a, t2, t1, **kwm)),
+                           ('broadcast_prefix', lambda: optree.tree_broadcast_prefix(t1, t2, **kwm)), ('broadcast_common', lambda: optree.tree_broadcast_common(t1, t2, **kwm)),
+                           ('prefix_errors', lambda: optree.prefix_errors(t1, t2, **kwm)), ('map_with_path', lambda: optree.tree_map_with_path(lambda p, a, b: a, t1, t2, **kwm)),
+                           ('transpose_map', lambda: optree.tree_transpose_map(lambda a, b: (a, b), t1, t2, **kwm)),
+                           ('is_prefix', lambda: s1.is_prefix(optree.tree_structure(t2, **kwm)))):
+                io.progress({'site': 'confusion:mismatch:%s:%s:%s' % (opn, container_kind(victim), how), 'tape': tape.values})
+                try:
+                    f()
+                    oc = 'ok'
+                except (ValueError, TypeError, RuntimeError, KeyError, IndexError):
+                    oc = 'exc'
+                keys.add('cf|mismatch|%s|%s|%s|%s' % (opn, container_kind(victim) if not (isinstance(victim, tuple) and hasattr(victim, '_fields')) else 'namedtuple', how, oc))
+    finally:
+        reg.unregister_all()
     del violations[6:]
     registered = []
     n_calls = 60 + tape.draw(60, 'n-calls')
